@@ -64,12 +64,15 @@ def St.empty : St :=
 
 def upd {α} (f : Nat → α) (k : Nat) (v : α) : Nat → α := fun x => if x = k then v else f x
 
-/-- a new object: `ParameterCollection.__init__()` -- defaults (code 0), `assigned = NEVER`, the next serial -/
+/-- a new object: `ParameterCollection.__init__()` -- defaults (code 0), the next serial.
+`__init__` sets `assigned = NEVER` and then assigns `self.serialNum = …` THROUGH the parameter setter,
+which marks the collection `SINCE_ANYTHING`; so that is what a new collection carries.  (The
+`serialNum` definition itself is kept out of `defs`: its value is the `serial` field.) -/
 def create (s : St) (defs : List Nat) (grid : Option GridVal) : St :=
   let o := s.next
   { s with
     vals := upd s.vals o (fun _ => 0)
-    assigned := upd s.assigned o NEVER
+    assigned := upd s.assigned o SINCE_ANYTHING
     backup := upd s.backup o []
     cache := upd s.cache o (fun _ => none)
     cacheBk := upd s.cacheBk o []
@@ -170,12 +173,13 @@ def exit (s : St) (objs keep : List Nat) : St :=
   (allDefs s objs).foldl (restoreDef keep) (objs.foldl (restoreObj keep) s)
 
 /-- `copy.deepcopy(obj)`: `ParameterCollection.__deepcopy__` builds a NEW collection from the copied
-state: same values and back-up chain, `assigned = NEVER`, a fresh serial number -/
+state: same values and back-up chain, a fresh serial number (assigned through the setter, so the
+new collection is `SINCE_ANYTHING`, see `create`) -/
 def deepcopyObj (s : St) (o : Nat) : St :=
   let n := s.next
   { s with
     vals := upd s.vals n (s.vals o)
-    assigned := upd s.assigned n NEVER
+    assigned := upd s.assigned n SINCE_ANYTHING
     backup := upd s.backup n (s.backup o)
     cache := upd s.cache n (s.cache o)
     cacheBk := upd s.cacheBk n (s.cacheBk o)
